@@ -1,7 +1,25 @@
 """C08 — paragraphs map one-to-one, in order, to heading, list-item and paragraph blocks."""
 from mammoth.docx.xmlparser import element as X, text as XT
 
-from .. import apilevel as A, docx_builder as B, gen_xml, oracle_html as O
+from .. import apilevel as A, docx_builder as B, gen_xml, oracle_html as O, terms as T
+
+NEST_HEADER = """From Mammoth Require Import Html Styles MiscSpec ListsSpec.
+Local Open Scope N_scope.
+Definition chk_nest (c : list block * list ev) : bool :=
+  forallb block_ok (fst c) && list_eqb ev_eqb (spec_events (fst c)) (snd c).
+"""
+
+
+def events_of(forest):
+    out = []
+    for n in forest:
+        if "name" in n:
+            out.append("(EOpen %s)" % T.s(n["name"]))
+            out += events_of(n["children"])
+            out.append("(EClose %s)" % T.s(n["name"]))
+        else:
+            out.append("(EText %s)" % T.s(n["text"]))
+    return out
 
 ORDERED = {"1": [False, False, True, True, False, True], "2": [True, True, False, True, True]}
 STYLES = [("Heading1", "Heading 1"), ("Heading2", "heading 2"), ("H3x", "Heading 3"), ("h4id", "HEADING 4"), ("Heading5", None), ("Heading6", "Heading 6"),
@@ -86,6 +104,7 @@ def run(ctx):
     rng = ctx.rng
     n = 2500 if ctx.thorough else 250
     terms, metas = [], []
+    nest_terms, nest_metas = [], []
     dist = {"documents": 0, "paragraphs": 0, "kinds": {"h": 0, "p": 0, "li": 0}, "max_depth": {}, "containers": {"body": 0, "cell": 0, "note": 0}}
     for i in range(n):
         seq = [rand_para(rng, j) for j in range(rng.randint(1, 8))]
@@ -149,6 +168,15 @@ def run(ctx):
                 ctx.sample({"blocks": meta["expected_blocks"], "html": html.value[:300]})
         terms.append(A.case_term(parts, False, {}, opts, html, raw))
         metas.append(meta)
+        if not bad and container != "note":
+            # the machine of the nesting THEOREM (Proofs/ListsSpec.v: spec_events) against the events of the implementation's output
+            blocks = T.lst(lambda et: ("(BPlain (mkTag %s [] [] false None) [Text %s])" % (T.s("h%d" % et[0][1] if et[0][0] == "h" else "p"), T.s(et[1])))
+                           if et[0][0] != "li" else "(BItem %d%%nat %s [Text %s])" % (et[0][1], T.b(et[0][2]), T.s(et[1])), [(e, t) for _, e, t in seq])
+            nest_terms.append("(%s, %s)" % (blocks, T.lst(lambda x: x, events_of(got))))
+            nest_metas.append(meta)
+    for i in ctx.coq_eval("c08n", NEST_HEADER, nest_terms, "list block * list ev", "chk_nest", shard=60)[:5]:
+        ctx.violation("proof", "the output's tag events are not those of the stack machine the nesting theorem is stated with (Proofs/ListsSpec.v: spec_events)",
+                      dict(nest_metas[i], obligation="Props/C08.v: C08_default_lists_nest evaluated on this paragraph sequence"), False)
     for i in ctx.coq_eval("c08", A.HEADER, terms, A.CASE_TYPE, "chk_api", shard=20)[:5]:
         ctx.violation("correspondence", "model and implementation disagree",
                       dict(metas[i], obligation="correspondence Model/Api.v vs mammoth.convert_to_html"), False)
